@@ -8,12 +8,18 @@
 (* Names are interchangeable, so only sequences whose per-name columns are sorted               *)
 (* lexicographically (in the order NameSeq) are generated: exactly one representative of every   *)
 (* orbit under renaming.                                                                         *)
+(*                                                                                              *)
+(* The snapshot without any object is a snapshot like every other (Snapshots contains it); since *)
+(* it is one of 25 .. 125 it is rare in short exhaustive families, so EmptyAt pins it to chosen   *)
+(* positions: e.g. all sequences  s1, {}, s3  and  s1, s2, {}, s4.                                *)
 EXTENDS Lifecycle, Json, TLC
 
 CONSTANTS NameSeq,      \* the names, as a sequence (order used for the canonical form)
           KindSeq,      \* the kinds, as a sequence
           MaxPanics,    \* bound on the number of (step, name) panic marks in a sequence
-          Canonical     \* TRUE: canonical sequences only (exhaustive dump); FALSE: any (simulation)
+          Canonical,    \* TRUE: canonical sequences only (exhaustive dump); FALSE: any (simulation)
+          EmptyAt       \* numbers of the snapshots that are the EMPTY configuration (no object at all):
+                        \* families of sequences that pass through the empty configuration
 
 VARIABLES hist, out
 
@@ -25,6 +31,9 @@ Names4 == <<"a", "b", "c", "d">>
 SupKinds == <<"K1", "K2">>               \* two business-controller kinds
 TrafKinds == <<"K1", "G1", "P1">>        \* business controller, traffic-gate category, pipeline category
 TrafKinds4 == <<"K1", "K2", "G1", "P1">>
+OneKind == <<"K1">>
+GateOnly == <<"G1">>
+ApplyKinds == <<"G1", "P1">>             \* the TrafficController's Apply path: traffic objects only
 
 ASSUME {NameSeq[i] : i \in 1..Len(NameSeq)} = Names
 ASSUME {KindSeq[i] : i \in 1..Len(KindSeq)} = Kinds
@@ -60,6 +69,7 @@ GStep(s, pan) ==
                 live  |-> [x \in Names |-> NextLive(clive[x], s[x], n)],
                 trans |-> [x \in Names |-> Trans(snap[x], s[x])]]
     IN
+    /\ n \in EmptyAt => s = [x \in Names |-> None]
     /\ hist' = Append(hist, rec)
     /\ Canonical => Canon(hist')
     /\ snap' = s /\ step' = n
